@@ -14,28 +14,37 @@ func inspect(n sql.Node, f func(sql.Node) bool) {
 	}
 }
 
-func transformNode(n sql.Node, f func(sql.Node) (sql.Node, error)) (sql.Node, error) { return f(n) }
+func transformNode(n sql.Node, sel func(plan.TransformCtx) bool, f func(sql.Node) (sql.Node, error)) (sql.Node, error) {
+	if !sel(plan.TransformCtx{Node: n}) {
+		return n, nil
+	}
+	return f(n)
+}
 
-// applyTriggers — planted: DELETE statements are matched to UPDATE triggers (T3 event), and the triggers are applied
-// in catalog order (T4).
+// applyTriggers — planted: DELETE statements are matched to UPDATE triggers (T3 event), triggers are selected by event only
+// (not by table), and the triggers are applied in catalog order (T4).
 func applyTriggers(ctx *sql.Context, n sql.Node, all []*plan.CreateTrigger) (sql.Node, error) {
 	var triggerEvent plan.TriggerEvent
+	var affectedTables []string
 	found := false
 	inspect(n, func(n sql.Node) bool {
 		switch n.(type) {
 		case *plan.InsertInto:
+			affectedTables = append(affectedTables, "t")
 			triggerEvent = plan.InsertTrigger
 			found = true
 		case *plan.Update:
+			affectedTables = append(affectedTables, "t")
 			triggerEvent = plan.UpdateTrigger
 			found = true
 		case *plan.DeleteFrom:
+			affectedTables = append(affectedTables, "t")
 			triggerEvent = plan.UpdateTrigger
 			found = true
 		}
 		return true
 	})
-	if !found {
+	if !found || len(affectedTables) == 0 {
 		return n, nil
 	}
 	var affectedTriggers []*plan.CreateTrigger
@@ -63,7 +72,16 @@ func applyTrigger(ctx *sql.Context, originalNode, n sql.Node, trigger *plan.Crea
 	if err != nil {
 		return nil, err
 	}
-	return transformNode(n, func(node sql.Node) (sql.Node, error) {
+	// planted: skips child 0 (the wrapped node) instead of child 1 (the logic)
+	canApplyTriggerExecutor := func(c plan.TransformCtx) bool {
+		if _, ok := c.Parent.(*plan.TriggerExecutor); ok {
+			if c.ChildNum == 0 {
+				return false
+			}
+		}
+		return true
+	}
+	return transformNode(n, canApplyTriggerExecutor, func(node sql.Node) (sql.Node, error) {
 		switch n := node.(type) {
 		case *plan.InsertInto:
 			if trigger.TriggerTime == plan.BeforeStr {
